@@ -42,6 +42,11 @@ type CPKnobs struct {
 	SchedSeed uint64     `json:"sched_seed"`
 	Repeats   int        `json:"repeats"`
 	CrossBE   bool       `json:"cross_backend"` // also create the checkpoint on the other backend and compare metadata
+	// StaleChunkSize > 0: before the checkpoint is created its directory already holds the chunk
+	// files (but no metadata file) of a creation of the same root with these other parameters
+	// that died before it wrote the metadata (or of a DeleteCheckpoint that died after removing it).
+	StaleChunkSize uint64 `json:"stale_chunk_size,omitempty"`
+	StaleThreads   uint16 `json:"stale_threads,omitempty"`
 }
 
 // CPCorrupt describes a chunk corruption.
@@ -137,6 +142,15 @@ func (CheckpointEngine) Generate(r *core.Rand, tier core.Tier) *core.Scenario {
 		k.Threads = uint16(r.Range(4, 16))
 	default:
 		k.Threads = uint16(r.Range(16, 32))
+	}
+	if r.Chance(1, 4) {
+		// Leftovers of an interrupted creation with a different chunk layout (mostly larger chunks,
+		// i.e. longer files under the same names).
+		k.StaleChunkSize = k.ChunkSize * uint64(r.Range(2, 9))
+		if r.Chance(1, 4) {
+			k.StaleChunkSize = uint64(r.Range(1, int(k.ChunkSize)))
+		}
+		k.StaleThreads = uint16(r.Pick([]int{2, 2, 1}) * r.Range(0, 4))
 	}
 	sc := &core.Scenario{Engine: "checkpoint", Knobs: core.MustJSON(k)}
 	nops := r.Range(0, 12)
@@ -395,6 +409,20 @@ func (CheckpointEngine) Execute(sc *core.Scenario, st *core.Stats) (*core.Violat
 	pv, stack := core.Guard(func() {
 		var err error
 		var sched *chunkSched
+		if k.StaleChunkSize > 0 && !root.Hash.IsEmpty() {
+			stale, serr := checkpoint.NewFileCreator(filepath.Join(base, "cp0"), src)
+			if serr != nil {
+				core.Harnessf("checkpoint: NewFileCreator: %v", serr)
+			}
+			if sm, serr := stale.CreateCheckpoint(ctx, root, k.StaleChunkSize, k.StaleThreads); serr == nil {
+				metaPath := filepath.Join(base, "cp0", fmt.Sprint(root.Version), root.Hash.String(), "meta")
+				if rerr := os.Remove(metaPath); rerr != nil {
+					core.Harnessf("checkpoint: cannot remove the stale metadata file: %v", rerr)
+				}
+				st.Inc("probe.stale_chunk_files_left_behind")
+				st.Event("stale creation chunks=%d", len(sm.Chunks))
+			}
+		}
 		creator, meta, err, sched = create(src, "cp0", root, k.SchedSeed)
 		if err != nil {
 			if root.Hash.IsEmpty() {
